@@ -32,6 +32,7 @@ type sessCfg struct {
 	WriteDelay bool `json:"writedelay"`
 	AckNoDelay bool `json:"acknodelay"`
 	Retune     bool `json:"retune,omitempty"` // SetNoDelay(-1, ...) follows: "leave the mode as it is"
+	RateLimit  int  `json:"ratelimit,omitempty"` // bytes/s for SetRateLimit; -1: SetRateLimit(0) ("disabled") is called; 0: never called
 }
 
 func (c sessCfg) minRTO() uint32 {
@@ -73,6 +74,7 @@ func randomSessCfg(rng *vrng) sessCfg {
 		WriteDelay: rng.chance(0.3),
 		AckNoDelay: rng.chance(0.3),
 		Retune:     rng.chance(0.3),
+		RateLimit:  pick(rng, []int{0, 0, 0, 0, 0, 0, 0, 0, 0, -1, 100_000, 1_000_000, 20_000_000}),
 	}
 }
 
@@ -381,6 +383,12 @@ func applySessCfg(s *UDPSession, c sessCfg) bool {
 	s.SetNoDelay(c.NoDelay, c.Interval, c.Resend, c.NC)
 	if c.Retune {
 		s.SetNoDelay(-1, c.Interval, c.Resend, c.NC)
+	}
+	switch {
+	case c.RateLimit < 0:
+		s.SetRateLimit(0)
+	case c.RateLimit > 0:
+		s.SetRateLimit(uint32(c.RateLimit))
 	}
 	s.SetStreamMode(c.Stream)
 	s.SetWriteDelay(c.WriteDelay)
